@@ -3,4 +3,8 @@
 #[cfg(kani)]
 mod stubs;
 #[cfg(kani)]
+mod cborwf;
+#[cfg(kani)]
 mod c26;
+#[cfg(kani)]
+mod c22;
